@@ -189,3 +189,4 @@ reg('C12', 'codec', 'rule_vlq_field_reset')       # redundant continuation digit
 reg('C08', 'codec', 'rule_vlq_field_reset')       # the attached map is read by this decoder
 reg('C17', 'panics', 'rule_lookup_unwrap', ('dev', 'release'))   # a name / source index beyond a supplied map's tables must not panic
 reg('C08', 'streams', 'rule_active_cleared')      # a zero-width segment does not stay active past the segment that closes it
+reg('C19', 'ropeinv', 'rule_unchecked_sibling', ('dev', 'release'))   # the unchecked slicer picks and cuts pieces like its checked sibling
